@@ -108,3 +108,8 @@ package controlcommands
 //@   ensures m != nil && cmd != nil ==> cmd.(*MesosCommandBase).Name == m.Name && cmd.(*MesosCommandBase).Id == m.Id && cmd.(*MesosCommandBase).EnvironmentId == m.EnvironmentId && cmd.(*MesosCommandBase).ResponseTimeout == m.ResponseTimeout
 //@   ensures m != nil && cmd != nil ==> len(cmd.(*MesosCommandBase).TargetList) == 1 && cmd.(*MesosCommandBase).TargetList[0] == receiver
 //@   ensures m != nil && cmd != nil && (receiver in m.argMap) ==> cmd.(*MesosCommandBase).Arguments == m.argMap[receiver]
+
+//@ func NewMesosCommand(name string, envId uid.ID, receivers []MesosCommandTarget, argMap PropertyMapsMap) (c *MesosCommandBase)
+//@   property C12
+//@   modifies nothing
+//@   ensures fresh(c) && c.Name == name && c.EnvironmentId == envId && c.TargetList == receivers && c.argMap == argMap && c.ResponseTimeout == defaultResponseTimeout
